@@ -50,6 +50,11 @@ CLAIMED.update({
    note="Trusted: kernel, extraction, drivers, transcription of body.rs, chooser.rs, body/base64.rs and quoted_printable::_encode (text mode, limit 76). The encoding-rule clauses (lines <= 76 / <= 998, ASCII, no bare trailing blank) are judged on the implementation's output by the extracted checkers, not proved. 7bit well-formedness is false for the class F16 (NUL, bare CR/LF), a known finding. No axioms.",
    technique="Coq proof (transducer/decoder invariant for quoted-printable, chunk lemma for base64, index-insertion lemma for CRLF) + exhaustive differential correspondence",
    design="8/C10"),
+ "C17": dict(
+   text="Coq theorems about an executable model of the chumsky 0.9 mailbox grammar (ordered choice, greedy repetition, padded), of Display for Mailbox and of the header map: C17_mailbox_rt_noname / _plain / _quoted (Display then the grammar gives back the same user and domain and the display name up to surrounding white space and the length of inner SP/TAB runs - for every atom-word name with any number of words and blank runs, and for every other name made of any characters except NUL, LF, CR, written as a quoted string; addresses of the form run(.run)*@run(.run)* of any length), C17_from_str_of_raw, C17_get_after_set / C17_get_after_remove (case-insensitive lookup, in-place replacement, removal) and C17_names_unique (every reachable header map holds one field per name). Tied to /repo by an exhaustive 12-symbol sweep of Mailbox::from_str and Mailboxes::from_str against the model (real oracle answers for each parsed domain), Display sweeps, lists of 0..50, header-map operation sequences, and round-trip oracles on the implementation for mailboxes and every typed header (Date boundaries, MimeVersion pairs, CTE, Content-Disposition, Content-Type, text).",
+   note="Trusted: kernel, extraction, drivers, transcription of chumsky's combinators and of parsers/*.rs, types.rs, header/mod.rs. Proved for single mailboxes; the list form (Mailboxes) and serde are covered by correspondence and the round-trip oracle only. Typed headers other than mailboxes (Date via httpdate, Content-Type via mime, MimeVersion, CTE, Content-Disposition) are not modelled: their get(set(h)) = h is tested on the implementation. Known findings F1-F4 (CR/LF or NUL in a name, quoted local parts, domain literals) are outside the theorems' premises. No axioms.",
+   technique="Coq proof (PEG inversion by induction over word/item lists; association-list refinement) + exhaustive differential correspondence",
+   design="8/C17"),
 })
 NOT_YET = {}
 props = [json.loads(l) for l in open(os.path.join(V, "properties.jsonl"))]
